@@ -1100,3 +1100,70 @@ def translate(repo):
                       f'evaluations, first: {terms[failing[0]]}')
     info.update(primitives=pyedges2coq.PRIMITIVES, selftest={'evaluations': len(terms), 'failing': 0})
     return info
+
+
+# ====================================================================================================================
+# translator tie, second part (added; wraps the hook above): pipeline.combine_events is regenerated as well
+# (translate/pycombine2coq.py -> coq/gen/EdgesCombineGen.v, vocabulary coq/Edges/TiePrimsCombine.v);
+# coq/Edges/ProofsTieCombine.v proves the generated definition equal to Edges/Model.combine_events for every list of
+# blocks (C13_source_combine* in coq/Props/C13.v).
+GEN_COMBINE = 'gen/EdgesCombineGen.v'
+TRUSTED = TRUSTED + [
+    'translate/pycombine2coq.py (fail-closed ast translator of pipeline.combine_events -> gen_combine_events : events + exn: '
+    'l[0] / l[-1] = py_item (IndexError), l[1:] = py_slice, `for ed in events[1:]` = fold_res of a generated body that may raise, '
+    'b.start / .end / .fs / .events = fields (pinned text of Events.__init__); pinned as text: the signature, the two raise statements '
+    '(-> EAlign, EFs), `pd.concat(ed.events for ed in <list>)` = the event tables joined in order (df_concat).  Self-test on every run: '
+    'the emitted definition evaluated by coqc against the real function on 80 lists / tuples of 0..4 blocks (aligned, misaligned, mixed '
+    'rates, no rate): merged block or exception class / message)',
+    'the primitives of coq/Edges/TiePrimsCombine.v as modelled (exercised by that self-test, not proved): rbind, py_item, fold_res, '
+    'df_concat, to_combined']
+ASSUMPTIONS = ASSUMPTIONS + ['translator tie, second part: combine_events IS translated and tied for every list of blocks (this supersedes the remark above); only the seconds-based queries get_range / get_latest remain tied by differential testing alone']
+_translate_edges = translate
+
+
+def translate(repo):
+    """The hook above (RunsGen.v, EdgesGen.v), then coq/gen/EdgesCombineGen.v; same fail-closed convention."""
+    import os
+    import random
+    import vlib
+    from translate import pycombine2coq
+    info = _translate_edges(repo)
+    info['gen_files'] = info.get('gen_files', []) + [GEN_COMBINE]
+    head = ('(* GENERATED on every run by harness/C13.py translate() with translate/pycombine2coq.py from\n'
+            f'   {repo}/psiaudio/pipeline.py - do not edit.  Vocabulary: coq/Edges/TiePrimsCombine.v.  '
+            'Tie theorems: coq/Edges/ProofsTieCombine.v. *)\n')
+    path = os.path.join(vlib.COQ, GEN_COMBINE)
+
+    def broken(why):
+        info['gap'] = (info.get('gap') + ' / ' if info.get('gap') else '') + 'combine_events: ' + why
+        msg = ''.join(ch if ch.isalnum() or ch in " _.,:;()[]{}=+-*/<>'`" else ' ' for ch in why)
+        msg = msg.replace('(*', '( *').replace('*)', '* )')[:400]
+        with open(path, 'w') as f:              # deliberately ill-typed: whoever builds it sees the reason
+            f.write(head + 'From Coq Require Import ZArith String.\n' + f'Definition translator_gap : Z :=\n  "{msg}"%string.\n')
+        return info
+    try:
+        text, tinfo = pycombine2coq.translate(repo)
+    except Exception as e:
+        return broken(f'{type(e).__name__}: {e}')
+    with open(path, 'w') as f:                  # always rewritten: always re-checked
+        f.write(head + text)
+    info['combine'] = tinfo
+    if info.get('gap'):
+        return info                             # the first part is broken already (TiePrims may not even build)
+    rc, out = vlib.coq_build('gen/EdgesCombineGen.vo')
+    if rc != 0:
+        return broken('the generated file does not type-check: ' + out[-600:])
+    try:
+        with warnings.catch_warnings():
+            warnings.simplefilter('ignore')
+            terms = pycombine2coq.selftest_terms(_P(), random.Random(11))
+        failing = vlib.run_cases(PROP, ['gen.EdgesCombineGen', 'Edges.TiePrimsCombine'], terms, tag='tieselfc')
+    except vlib.MachineryError as e:
+        return broken('self-test could not be evaluated: ' + str(e)[-600:])
+    except Exception as e:
+        return broken(f'self-test: {type(e).__name__}: {e}')
+    if failing:
+        return broken(f'self-test: the generated definition disagrees with the real function on {len(failing)} of {len(terms)} '
+                      f'evaluations, first: {terms[failing[0]]}')
+    info['combine'].update(primitives=pycombine2coq.PRIMITIVES, selftest={'evaluations': len(terms), 'failing': 0})
+    return info
